@@ -226,3 +226,40 @@ pub mod prng {
 /// Hook H4 lives in `crate::vdaf::prio2::verif` (the client/server modules are private to it).
 #[cfg(all(feature = "crypto-dependencies", feature = "experimental"))]
 pub use crate::vdaf::prio2::verif as prio2;
+
+/// Hook H5: event log of `ParallelSumMultithreaded::eval_poly` -- creation of every per-task fold
+/// state and which input chunk each state folds, in order. Off unless a recorder is armed.
+pub mod parsum {
+    use std::sync::atomic::{AtomicBool, AtomicUsize, Ordering};
+    use std::sync::Mutex;
+
+    static ARMED: AtomicBool = AtomicBool::new(false);
+    static NEXT: AtomicUsize = AtomicUsize::new(0);
+    static LOG: Mutex<Vec<(usize, Option<usize>)>> = Mutex::new(Vec::new());
+
+    /// Start recording (clears the log).
+    pub fn arm() {
+        LOG.lock().unwrap().clear();
+        NEXT.store(0, Ordering::SeqCst);
+        ARMED.store(true, Ordering::SeqCst);
+    }
+    /// Stop recording and return the events `(state id, None)` = state created,
+    /// `(state id, Some(chunk index))` = chunk folded into that state.
+    pub fn take() -> Vec<(usize, Option<usize>)> {
+        ARMED.store(false, Ordering::SeqCst);
+        std::mem::take(&mut *LOG.lock().unwrap())
+    }
+    pub(crate) fn new_state() -> usize {
+        let id = NEXT.fetch_add(1, Ordering::SeqCst);
+        if ARMED.load(Ordering::SeqCst) {
+            LOG.lock().unwrap().push((id, None));
+        }
+        id
+    }
+    pub(crate) fn fold(id: usize, chunk_ptr: usize, base_ptr: usize, chunk_bytes: usize) {
+        if ARMED.load(Ordering::SeqCst) {
+            let idx = if chunk_bytes == 0 { 0 } else { (chunk_ptr - base_ptr) / chunk_bytes };
+            LOG.lock().unwrap().push((id, Some(idx)));
+        }
+    }
+}
